@@ -108,13 +108,22 @@ def gen_cases(exe, profile, seed, count, path, extra=None):
     cmd = [exe, "gen", "--profile", profile, "--seed", str(seed), "--count", str(count)] + (extra or [])
     with open(path, "w") as f:
         p = subprocess.run(cmd, stdout=f, stderr=subprocess.PIPE, text=True, timeout=3600)
-    return p.returncode == 0, p.stderr[-400:]
+    return p.returncode == 0, hang_or_tail(p)
+
+
+def hang_or_tail(p):
+    """the harness watchdog exits with code 3 and `HANG <program>` on stderr when one analysis does not finish"""
+    if p.returncode == 3:
+        for line in p.stderr.splitlines():
+            if line.startswith("HANG "):
+                return line
+    return p.stderr[-400:]
 
 
 def replay_cases(exe, src, path):
     with open(path, "w") as f:
         p = subprocess.run([exe, "replay", src], stdout=f, stderr=subprocess.PIPE, text=True, timeout=3600)
-    return p.returncode == 0, p.stderr[-400:]
+    return p.returncode == 0, hang_or_tail(p)
 
 
 def read_case(path, idx):
@@ -182,6 +191,7 @@ def main():
     rows_all, files = [], []
     dist = {}
     gen_err = ""
+    hangs = []          # (profile, program) on which the implementation did not terminate
     if ok_h and build_ok:
         plan = []
         corpus = os.path.join(ROOT, "corpus", prop + ".txt")
@@ -199,7 +209,11 @@ def main():
             else:
                 g_ok, err = gen_cases(exe, profile, seed, arg, path)
             if not g_ok:
-                gen_err += err
+                if err.startswith("HANG "):
+                    hangs.append((profile, err[5:].strip()))
+                    gen_err += "analysis did not terminate within the per-case limit (profile %s); " % profile
+                else:
+                    gen_err += err
                 continue
             rc, rows, err = run_driver(prop, path)
             if rc != 0:
@@ -247,6 +261,13 @@ def main():
                        "how_to_replay": "write the line 'G 1 replay x' then 'P <program>' into a file and run ./check.py %s quick --replay <file>" % prop})
         status = 1
         tail = ""
+    elif hangs and prop == "C13":
+        prof, prog = min(hangs, key=lambda x: len(x[1]))
+        replay.update({"kind": "implementation-violates-property", "failing_instance": "c13:analysis-does-not-terminate",
+                       "case": "profile " + prof, "program": prog,
+                       "how_to_replay": "write the line 'G 1 replay x' then 'P <program>' into a file and run ./check.py C13 quick --replay <file>; the harness watchdog (VERIF_CASE_TIMEOUT_MS, default 20000) reports HANG"})
+        status = 1
+        tail = ""
     elif failed_obs or disagreements or model_fail or bad_rows or not corr_ok:
         replay["kind"] = "obligation-or-correspondence-broken"
         replay["failed_obligations"] = [{"obligation": o[0], "detail": o[2]} for o in failed_obs]
@@ -263,6 +284,8 @@ def main():
             replay["undecodable_cases"] = len(bad_rows)
         if gen_err:
             replay["harness_error"] = gen_err[-600:]
+        if hangs:
+            replay["analysis_did_not_terminate_on"] = {"profile": hangs[0][0], "program": hangs[0][1]}
         status = 1
         tail = " no-failing-input-found"
     if status:
